@@ -93,7 +93,13 @@ def h_recover(params, k, w, r0, r1, r2, r3, r4, r5, via_json, cont):
     raise Assume()
   # lazily: only the rewards that are actually fed back (the first k - w proposals) are solver decisions
   sym_rewards = (r0, r1, r2, r3, r4, r5)
-  rewards = [_pick([0, 1, 2], sym_rewards[t]) if t < k - w else 0 for t in range(6)]
+  if name in DETERMINISTIC:
+    # (these algorithms never read a reward: fixed values, one per proposal)
+    rewards = [t % 3 for t in range(6)]
+  else:
+    # three reward values (every order and tie) for up to 3 fed-back proposals, two values beyond that
+    dom = [0, 1, 2] if k - w <= 3 else [0, 1]
+    rewards = [_pick(dom, sym_rewards[t]) if t < k - w else 0 for t in range(6)]
   via_json = bool(via_json)
   cont = _pick([0, 1, 2, 3], cont) if name in DETERMINISTIC else 0
   with untraced():
@@ -164,14 +170,15 @@ def shards(tier, seed):
   for name in ALGOS:
     for sp in (['small'] if quick else ['small', 'multi', 'cond']):
       for k in range(n + 1):
+        heavy = (name not in DETERMINISTIC and k >= 3) or (name == 'dedup_random' and k >= 4)     # (slow paths: retries)
         out.append(dict(name=f'recover:{name}:{sp}:k{k}', fn='h_recover_r', params=dict(algo=name, space=sp, n=n, k=k), args=_ARGS,
-                        budget_s=25 if quick else 300, per_path_s=30))
+                        budget_s=(150 if heavy else 40) if quick else 300, expect_s=70 if heavy else 10, per_path_s=30))
   return out
 
 
 META = dict(
     rule='Shard = (algorithm, space, crash point k); symbolic: number of trailing missing feedbacks w in 0..2, the '
-         'rewards of the first 6 proposals (3 values each: all orders and ties), JSON persistence bit, number of continued '
+         'rewards of the fed-back proposals (3 values each - all orders and ties - up to 3 of them, 2 values beyond; fixed for algorithms that never read rewards), JSON persistence bit, number of continued '
          'proposals compared.',
     bounds=['algorithms: ' + ', '.join(ALGOS), 'spaces: small (6 points), multi, cond', 'run length N = 5 (quick) / 7 (thorough), '
             'every crash point 0..N', 'evolution RNG seeded concretely (population sizes 2-3)'],
